@@ -288,6 +288,57 @@ def _instance_state(chk, ctx) -> None:
            got=[stmt_text(n) for _, n in alias[:2]])
 
 
+    # deepcopy treats functions as atoms: a closure, lambda, bound method or partial stored in a field keeps pointing at the
+    # ORIGINAL instance after a copy, so the copy would read (or write) the other state through it
+    bound = []
+    for name, fi in st.methods.items():
+        local_fns = {n.name for n in ast.walk(fi.node) if isinstance(n, ast.FunctionDef) and n is not fi.node}
+        for node in walk_no_nested(fi.node):
+            tg = node.targets if isinstance(node, ast.Assign) else [node.target] if isinstance(node, ast.AnnAssign) and node.value is not None else []
+            calls = []
+            if isinstance(node, ast.Expr) and isinstance(node.value, ast.Call) and isinstance(node.value.func, ast.Attribute) \
+                    and node.value.func.attr in ('append', 'extend', 'add', 'insert', 'update', 'setdefault', '__setitem__') and self_attr_root(node.value.func.value):
+                calls = list(node.value.args)
+            vals = ([node.value] if [t for t in tg if self_attr_root(t)] else []) + calls
+            def stored_callable(x):
+                """is x (the stored value, an element of a stored literal, or an argument of a stored partial) such a callable?"""
+                if isinstance(x, ast.Lambda):
+                    return any(isinstance(y, ast.Name) and y.id == 'self' for y in ast.walk(x))
+                if isinstance(x, ast.Name):
+                    return x.id in local_fns
+                if isinstance(x, ast.Attribute) and isinstance(x.value, ast.Name) and x.value.id == 'self':
+                    return x.attr in st.methods and not st.methods[x.attr].is_property
+                if isinstance(x, (ast.Tuple, ast.List, ast.Set)):
+                    return any(stored_callable(e) for e in x.elts)
+                if isinstance(x, ast.Dict):
+                    return any(stored_callable(e) for e in x.values if e is not None)
+                if isinstance(x, ast.Call) and isinstance(x.func, ast.Name) and x.func.id == 'partial':
+                    return any(stored_callable(e) for e in x.args) or any(stored_callable(k.value) for k in x.keywords) \
+                        or any(isinstance(y, ast.Name) and y.id == 'self' for a in x.args for y in ast.walk(a))
+                if isinstance(x, ast.IfExp):
+                    return stored_callable(x.body) or stored_callable(x.orelse)
+                return False
+            for v in vals:
+                if stored_callable(v):
+                    bound.append((fi, node))
+    chk.ob('C15.instance_state', 'State:bound_callables', not bound, ctx.loc(bound[0][0], bound[0][1]) if bound else st.loc,
+           'no field stores a closure, lambda, bound method or partial that refers to the instance: deepcopy keeps functions as they are, '
+           'so a copy would keep consulting the original state through it', got=[stmt_text(n) for _, n in bound[:2]])
+
+
+def self_attr_root(t):
+    base = t
+    while isinstance(base, (ast.Attribute, ast.Subscript)):
+        if isinstance(base, ast.Attribute) and isinstance(base.value, ast.Name) and base.value.id == 'self':
+            return base.attr
+        base = base.value
+    return None
+
+
+def _is_called(root, attr_node) -> bool:
+    return any(isinstance(c, ast.Call) and c.func is attr_node for c in ast.walk(root))
+
+
 def _nondeterminism(chk, ctx) -> None:
     st = ctx.state
     rng = {}
